@@ -133,9 +133,31 @@ class ExpandedTraceback:
         self.full_traceback = full_traceback
         self.hide_filenames = hide_filenames
         self.show_filenames = show_filenames
-        self.line_number = traceback.extract_tb(exc_info[2])[-1][1]
+        self.line_number = self._find_line_number(exc_info[2])
         self.original_code_lines = original_code_lines
         self.student_files = student_files
+
+    def _find_line_number(self, tb):
+        """
+        The line that the error should be attached to: the innermost frame
+        that is in one of the student's files (not wherever the exception
+        happened to be raised - that may be inside a library or Pedal's own
+        mocked builtins); failing that the position of a SyntaxError found while
+        compiling the code; failing that the innermost frame of the executed
+        (instructor) code; and only then the innermost frame of all.
+        """
+        frames = traceback.extract_tb(tb)
+        for frame in reversed(frames):
+            if frame.filename in self.show_filenames:
+                return frame.lineno
+        if (isinstance(self.exception, SyntaxError) and self.exception.lineno is not None and
+                (self.exception.filename in self.show_filenames or
+                 self.exception.filename in self.hide_filenames)):
+            return self.exception.lineno
+        for frame in reversed(frames):
+            if frame.filename in self.hide_filenames:
+                return frame.lineno
+        return frames[-1].lineno if frames else None
 
     def __repr__(self):
         return f"ExpandedTraceback({self.exception})"
